@@ -23,12 +23,12 @@ PROFILES = {
     "C08": {"g1": 0.9, "big_ids": 0.08, "w": {"addlinks": 7, "batch": 5, "create": 4, "rmprefix": 2, "delete": 2, "clear": 0.5}, "r": {"welinks": 8}},
     "C09": {"g1": 0.9, "w": {"addpage": 10, "addpages": 4, "create": 3, "clear": 0.5}, "r": {"paginate": 8, "pages": 1, "helpers": 1}},
     "C10": {"g1": 0.9, "w": {"addlinks": 8, "batch": 5, "addpage": 5, "create": 3, "rmprefix": 2, "delete": 2, "clear": 0.5}, "r": {"paginatelinks": 8, "helpers": 2}},
-    "C11": {"w": {"reopen": 4, "clear": 1.2}, "read_rate": 0.7},
+    "C11": {"w": {"reopen": 4, "clear": 1.2, "cobatch": 1.5}, "read_rate": 0.7, "abandon_batch": 0.5},
     "C12": {"g1": 0.9, "init_rules": 0.5, "w": {"create": 5, "delete": 2, "reopen": 2, "addrule": 2, "clear": 0.6}, "r": {"global": 4}},
-    "C13": {"g1": 0.9, "init_rules": 0.6, "w": {"create": 6, "addprefix": 3, "moveprefix": 2, "addrule": 3, "addlinks": 6, "batch": 3}, "r": {"hierarchy": 4, "hierarchy_all": 6}, "read_rate": 0.8,
+    "C13": {"g1": 0.9, "init_rules": 0.6, "w": {"create": 6, "addprefix": 3, "moveprefix": 2, "rmprefix": 2.5, "delete": 1, "deleteu": 0.6, "addrule": 3, "addlinks": 6, "batch": 3}, "r": {"hierarchy": 4, "hierarchy_all": 6}, "read_rate": 0.8,
             "defaults": ["domain", "path1", "path2", "subdomain"]},
-    "C14": {"read_rate": 0.9, "init_rules": 0.7, "forget_rule": 0.5, "w": {"reopen": 2.5}},
-    "C15": {"w": {"reopen": 0}},
+    "C14": {"read_rate": 0.9, "init_rules": 0.7, "forget_rule": 0.5, "w": {"reopen": 2.5}, "abandon_batch": 0.3},
+    "C15": {"w": {"reopen": 0}, "abandon_batch": 0.2},
     "C16": {},
     "C17": {"g1": 1.0, "r": {"helpers": 8}},
     "C18": {"w": {"reopen": 0, "clear": 0}},
